@@ -194,13 +194,21 @@ func (g *FnGen) oblige(kind, label string, props []string, reach, goal, src stri
 	return o
 }
 
+func (g *FnGen) safeProps() []string {
+	ps := []string{"C05"}
+	if g.con != nil {
+		ps = append(ps, g.con.SafeProps...)
+	}
+	return ps
+}
+
 // safety obligation followed by assumption (execution continues only if the check passed)
 func (g *FnGen) safe(kind string, reach, cond string, pos token.Pos) {
 	if cond == "true" {
 		return
 	}
 	k := g.ordinal("safe." + kind)
-	g.oblige("safe."+kind, fmt.Sprintf("%d", k), []string{"C05"}, reach, cond, "", pos)
+	g.oblige("safe."+kind, fmt.Sprintf("%d", k), g.safeProps(), reach, cond, "", pos)
 	g.assume(reach, cond)
 }
 
@@ -1052,7 +1060,9 @@ func (g *FnGen) store(p *PtrDesc, v Term, st *State) {
 		ss := p.base.Sort
 		h := g.hget(st, p.key).S
 		arr := fmt.Sprintf("(arr_%s %s)", ss, p.base.S)
-		g.hset(st, p.key, Term{fmt.Sprintf("(store %s %s (store (select %s %s) (+ (off_%s %s) %s) %s))", h, arr, h, arr, ss, p.base.S, p.idx.S, v.S), g.w.heapSort[p.key]})
+		nh := fmt.Sprintf("(store %s %s (store (select %s %s) (+ (off_%s %s) %s) %s))", h, arr, h, arr, ss, p.base.S, p.idx.S, v.S)
+		g.hset(st, p.key, Term{nh, g.w.heapSort[p.key]})
+		g.sliceStoreFrame(ss, p.sort, h, nh, arr, fmt.Sprintf("(+ (off_%s %s) %s)", ss, p.base.S, p.idx.S))
 	case "struct":
 		stt := types.Unalias(p.typ).Underlying().(*types.Struct)
 		for i := 0; i < stt.NumFields(); i++ {
@@ -1061,6 +1071,19 @@ func (g *FnGen) store(p *PtrDesc, v Term, st *State) {
 			g.hset(st, key, Term{fmt.Sprintf("(store %s %s %s)", g.hget(st, key).S, p.base.S, fv.S), g.w.heapSort[key]})
 		}
 	}
+}
+
+// sliceStoreFrame: after an update of one backing array (at one position, or wholesale when pos is empty) every
+// other element reads as before - stated through the element accessor, the form quantified invariants use.
+// A consequence of the array theory, added only to guide instantiation.
+func (g *FnGen) sliceStoreFrame(ss, es, oldH, newH, ref, pos string) {
+	w := g.w
+	cond := fmt.Sprintf("(not (= (arr_%s x) %s))", ss, ref)
+	if pos != "" {
+		cond = fmt.Sprintf("(or %s (not (= (+ (off_%s x) i) %s)))", cond, ss, pos)
+	}
+	nt := w.elemTerm(ss, es, newH, "x", "i")
+	g.emit(fmt.Sprintf("(assert (forall ((x %s) (i Int)) (! (=> %s (= %s %s)) :pattern (%s))))", ss, cond, nt, w.elemTerm(ss, es, oldH, "x", "i"), nt))
 }
 
 // ---------------------------------------------------------------- instructions
@@ -1097,7 +1120,10 @@ func (g *FnGen) instr(in ssa.Instruction, st *State, reach string, b *ssa.BasicB
 			// backing array of a slice literal / variadic pack: a fresh slice-heap object
 			key, es := w.sliceKey(at.Elem())
 			z := w.zero(at.Elem())
-			g.hset(st, key, Term{fmt.Sprintf("(store %s %s ((as const (Array Int %s)) %s))", g.hget(st, key).S, ref.S, es, z.S), w.heapSort[key]})
+			oh := g.hget(st, key).S
+			nh := fmt.Sprintf("(store %s %s ((as const (Array Int %s)) %s))", oh, ref.S, es, z.S)
+			g.hset(st, key, Term{nh, w.heapSort[key]})
+			g.sliceStoreFrame(w.sliceSort(es), es, oh, nh, ref.S, "")
 		} else {
 			key, srt := w.cellKey(elem)
 			g.ptrs[in] = &PtrDesc{kind: "cell", key: key, base: ref, sort: srt, typ: elem}
@@ -1245,7 +1271,10 @@ func (g *FnGen) instr(in ssa.Instruction, st *State, reach string, b *ssa.BasicB
 		g.safe("makeslice", reach, fmt.Sprintf("(<= 0 %s)", ln.S), in.Pos())
 		ss := w.sortOf(in.Type())
 		z := w.zero(sl.Elem())
-		g.hset(st, key, Term{fmt.Sprintf("(store %s %s ((as const (Array Int %s)) %s))", g.hget(st, key).S, ref.S, es, z.S), w.heapSort[key]})
+		oh := g.hget(st, key).S
+		nh := fmt.Sprintf("(store %s %s ((as const (Array Int %s)) %s))", oh, ref.S, es, z.S)
+		g.hset(st, key, Term{nh, w.heapSort[key]})
+		g.sliceStoreFrame(ss, es, oh, nh, ref.S, "")
 		g.setVal(in, Term{fmt.Sprintf("(mk_%s %s 0 %s)", ss, ref.S, ln.S), ss})
 	case *ssa.MakeClosure:
 		f := in.Fn.(*ssa.Function)
@@ -1742,7 +1771,7 @@ func (g *FnGen) panicInstr(in *ssa.Panic, st *State, reach string) {
 		return
 	}
 	k := g.ordinal("safe.panic")
-	g.oblige("safe.panic", fmt.Sprint(k), []string{"C05"}, reach, "false", "", in.Pos())
+	g.oblige("safe.panic", fmt.Sprint(k), g.safeProps(), reach, "false", "", in.Pos())
 }
 
 // ---------------------------------------------------------------- hooks filled in elsewhere
